@@ -21,6 +21,7 @@ import Nlmodel.Proofs.Lemmas.DivCtlExample
 import Nlmodel.Proofs.Lemmas.Div6Example
 import Nlmodel.Proofs.Lemmas.Div7Example
 import Nlmodel.Proofs.Lemmas.Div8Example
+import Nlmodel.Proofs.Lemmas.LimitExample
 namespace Nl
 namespace C01
 
@@ -188,7 +189,7 @@ theorem C01_function_simulation (W : SimF.World) (hW : SimF.WOK W) (f : Nat) : S
     definition), or with the same error kind — or at the machine's stack/frame limit. -/
 theorem C01_function_program (p : RBlock) (Γ' : Sim.Gam) (D : List (Nat × SimF.FnInfo)) (hy : SimF.YTop [] p 0 [] Γ' D)
     (hnd : D.Pairwise (fun x y => x.1 ≠ y.1)) (bc : Bytecode) (hc : compileR p = .ok bc) (F : Nat) :
-    (∃ n, ∀ k, ∃ s', runSteps bc.code (n + k) (VM.start {} bc) = .error .index s') ∨
+    HitsLimit bc ∨
     match Spec.evalB F p {} with
     | .val () st' => ∃ mv n, SimF.VR (SimF.lookupD D) Γ' st'.last mv ∧ st'.out = [] ∧
         ∀ k, ∃ s', runSteps bc.code (n + k) (VM.start {} bc) = .value mv s'
@@ -207,7 +208,7 @@ theorem C01_function_program (p : RBlock) (Γ' : Sim.Gam) (D : List (Nat × SimF
     inside the proved fragment). -/
 theorem C01_function_source_program (ast : Block) (r : RBlock) (bc : Bytecode) (hc : compileProgram ast = .ok (r, bc))
     (hin : SimF.inFragment r = true) (F : Nat) :
-    (∃ n, ∀ k, ∃ s', runSteps bc.code (n + k) (VM.start {} bc) = .error .index s') ∨
+    HitsLimit bc ∨
     match Spec.evalB F r {} with
     | .val () st' => ∃ Γ' D mv n, SimF.VR (SimF.lookupD D) Γ' st'.last mv ∧ st'.out = [] ∧
         ∀ k, ∃ s', runSteps bc.code (n + k) (VM.start {} bc) = .value mv s'
@@ -272,7 +273,7 @@ theorem C01_heap_eval_text (cc : CharClass) (src : Text) (ast : Block) (r : RBlo
     by induction over the resolver; function ids are distinct because they are issued in increasing order. -/
 theorem C01_function_program_no_validation (ast : Block) (r : RBlock) (bc : Bytecode) (hc : compileProgram ast = .ok (r, bc))
     (hin : SimF.SrcTop ast) (F : Nat) :
-    (∃ n, ∀ k, ∃ s', runSteps bc.code (n + k) (VM.start {} bc) = .error .index s') ∨
+    HitsLimit bc ∨
     match Spec.evalB F r {} with
     | .val () st' => ∃ Γ' D mv n, SimF.VR (SimF.lookupD D) Γ' st'.last mv ∧ st'.out = [] ∧
         ∀ k, ∃ s', runSteps bc.code (n + k) (VM.start {} bc) = .value mv s'
@@ -352,7 +353,7 @@ theorem C01_collection_is_transparent {W : Sim6.World} {μ : SimH.AMap} {st : Sp
     output; or the machine stops at its stack/frame limit, which the semantics does not have. -/
 theorem C01_heap_and_calls_program (ast : Block) (r : RBlock) (bc : Bytecode) (hc : compileProgram ast = .ok (r, bc))
     (hin : Sim6.inFragment6 r = true) (F : Nat) :
-    (∃ n s', ∀ k, runSteps bc.code (n + k) (VM.start {} bc) = .error .index s') ∨
+    HitsLimit bc ∨
     match Spec.evalB F r {} with
     | .val () st' => ∃ mv n s', (∀ k, runSteps bc.code (n + k) (VM.start {} bc) = .value mv s') ∧
         s'.mem.heap.tree treeDepth [] mv = st'.tree treeDepth [] st'.last ∧ s'.out = st'.out ∧
@@ -370,7 +371,7 @@ theorem C01_heap_and_calls_program (ast : Block) (r : RBlock) (bc : Bytecode) (h
     answers for every large enough budget — unless the machine stops at its stack/frame limit. -/
 theorem C01_heap_and_calls_eval_text (cc : CharClass) (src : Text) (ast : Block) (r : RBlock) (bc : Bytecode)
     (hp : parse cc src = .ok ast) (hs : Sim6.src6Top ast = true) (hc : compileProgram ast = .ok (r, bc)) (F : Nat) :
-    (∃ n out, ∀ k, evalText cc (n + k) src = .error .index out) ∨
+    TextHitsLimit cc src ∨
     match specText cc F src with
     | .value t out => ∃ n, ∀ k, evalText cc (n + k) src = .value t out
     | .error e out => ∃ n, ∀ k, evalText cc (n + k) src = .error e out
@@ -385,7 +386,7 @@ theorem C01_heap_and_calls_eval_text (cc : CharClass) (src : Text) (ast : Block)
     stack/frame limit -/
 theorem C01_heap_and_calls_eval_text_syntactic (cc : CharClass) (src : Text) (ast : Block) (r : RBlock) (bc : Bytecode)
     (hp : parse cc src = .ok ast) (hs : Sim6.src6TopNF ast = true) (hc : compileProgram ast = .ok (r, bc)) (F : Nat) :
-    (∃ n out, ∀ k, evalText cc (n + k) src = .error .index out) ∨
+    TextHitsLimit cc src ∨
     match specText cc F src with
     | .value t out => ∃ n, ∀ k, evalText cc (n + k) src = .value t out
     | .error e out => ∃ n, ∀ k, evalText cc (n + k) src = .error e out
@@ -410,7 +411,7 @@ theorem C01_nested_functions_simulation (W : Sim6.World) (hW : Sim7.WOK7 W) (f :
 /-- END TO END, stage 7, by validation (`Sim7.inFragment7`: pure fragment membership, decidable, proved sound) -/
 theorem C01_nested_functions_program (ast : Block) (r : RBlock) (bc : Bytecode) (hc : compileProgram ast = .ok (r, bc))
     (hin : Sim7.inFragment7 r = true) (F : Nat) :
-    (∃ n s', ∀ k, runSteps bc.code (n + k) (VM.start {} bc) = .error .index s') ∨
+    HitsLimit bc ∨
     match Spec.evalB F r {} with
     | .val () st' => ∃ mv n s', (∀ k, runSteps bc.code (n + k) (VM.start {} bc) = .value mv s') ∧
         s'.mem.heap.tree treeDepth [] mv = st'.tree treeDepth [] st'.last ∧ s'.out = st'.out ∧
@@ -425,7 +426,7 @@ theorem C01_nested_functions_program (ast : Block) (r : RBlock) (bc : Bytecode) 
 /-- THE OBSERVATION, stage 7: by validation of the resolver's output ... -/
 theorem C01_nested_functions_eval_text (cc : CharClass) (src : Text) (ast : Block) (r : RBlock) (bc : Bytecode)
     (hp : parse cc src = .ok ast) (hc : compileProgram ast = .ok (r, bc)) (hin : Sim7.inFragment7 r = true) (F : Nat) :
-    (∃ n out, ∀ k, evalText cc (n + k) src = .error .index out) ∨
+    TextHitsLimit cc src ∨
     match specText cc F src with
     | .value t out => ∃ n, ∀ k, evalText cc (n + k) src = .value t out
     | .error e out => ∃ n, ∀ k, evalText cc (n + k) src = .error e out
@@ -437,7 +438,7 @@ theorem C01_nested_functions_eval_text (cc : CharClass) (src : Text) (ast : Bloc
     outside blocks and anywhere inside function bodies; R1 of the resolver for context stacks of any depth, `Sim7.resolve_ztop7`) -/
 theorem C01_nested_functions_eval_text_no_validation (cc : CharClass) (src : Text) (ast : Block) (r : RBlock) (bc : Bytecode)
     (hp : parse cc src = .ok ast) (hs : Sim7.src7Top ast = true) (hc : compileProgram ast = .ok (r, bc)) (F : Nat) :
-    (∃ n out, ∀ k, evalText cc (n + k) src = .error .index out) ∨
+    TextHitsLimit cc src ∨
     match specText cc F src with
     | .value t out => ∃ n, ∀ k, evalText cc (n + k) src = .value t out
     | .error e out => ∃ n, ∀ k, evalText cc (n + k) src = .error e out
@@ -462,7 +463,7 @@ theorem C01_named_literals_simulation (W : Sim6.World) (hW : Sim8.WOK8 W) (f : N
     to ITSELF from inside a larger expression. -/
 theorem C01_named_literals_eval_text (cc : CharClass) (src : Text) (ast : Block) (r : RBlock) (bc : Bytecode)
     (hp : parse cc src = .ok ast) (hc : compileProgram ast = .ok (r, bc)) (hin : Sim8.inFragment8 r = true) (F : Nat) :
-    (∃ n out, ∀ k, evalText cc (n + k) src = .error .index out) ∨
+    TextHitsLimit cc src ∨
     match specText cc F src with
     | .value t out => ∃ n, ∀ k, evalText cc (n + k) src = .value t out
     | .error e out => ∃ n, ∀ k, evalText cc (n + k) src = .error e out
@@ -514,7 +515,7 @@ theorem C01_same_meaning_same_behaviour_with_functions (cc : CharClass) (src1 sr
     (hp2 : parse cc src2 = .ok a2) (hc2 : compileProgram a2 = .ok (r2, b2)) (hs2 : Sim6.src6Top a2 = true)
     (F1 F2 : Nat) (t : Tree) (out : List Text)
     (h1 : specText cc F1 src1 = .value t out) (h2 : specText cc F2 src2 = .value t out) :
-    (∃ n o, ∀ k, evalText cc (n + k) src1 = .error .index o) ∨ (∃ n o, ∀ k, evalText cc (n + k) src2 = .error .index o) ∨
+    TextHitsLimit cc src1 ∨ TextHitsLimit cc src2 ∨
     ∃ n, ∀ k, evalText cc (n + k) src1 = evalText cc (n + k) src2 := by
   have e1 := Sim6.eval_text6_checked cc src1 a1 r1 b1 hp1 hs1 hc1 F1
   have e2 := Sim6.eval_text6_checked cc src2 a2 r2 b2 hp2 hs2 hc2 F2
@@ -636,39 +637,66 @@ theorem C01_converse_needs_unspec : ∃ b, evalText CharClass.ascii b Sim.selfSr
     is `budget`, or the machine has stopped for good at its stack/frame limit (reported as an index error) -/
 theorem C01_heap_and_calls_divergence (cc : CharClass) (src : Text) (ast : Block) (r : RBlock) (bc : Bytecode) (hp : parse cc src = .ok ast)
     (hs : Sim6.src6Top ast = true) (hc : compileProgram ast = .ok (r, bc)) (hdiv : ∀ F, specText cc F src = .budget) (b : Nat) :
-    evalText cc b src = .budget ∨ (∃ n out, ∀ k, evalText cc (n + k) src = .error .index out) :=
+    evalText cc b src = .budget ∨ TextHitsLimit cc src :=
   Sim6.eval_text6_div cc src ast r bc hp hs hc hdiv b
 
 /-- the converse, stage 6: a machine answer that is not `budget` and not the limit is the definitional answer for some fuel -/
 theorem C01_heap_and_calls_machine_answer_is_definitional (cc : CharClass) (src : Text) (ast : Block) (r : RBlock) (bc : Bytecode)
     (hp : parse cc src = .ok ast) (hs : Sim6.src6Top ast = true) (hc : compileProgram ast = .ok (r, bc)) (b : Nat)
-    (hne : evalText cc b src ≠ .budget) (hnl : ¬ ∃ n out, ∀ k, evalText cc (n + k) src = .error .index out) :
+    (hne : evalText cc b src ≠ .budget) (hnl : ¬ TextHitsLimit cc src) :
     ∃ F, specText cc F src = evalText cc b src ∨ specText cc F src = .unspec :=
   Sim6.eval_text6_converse cc src ast r bc hp hs hc b hne hnl
 
 /-- stage 7 (function literals in every expression position, named declarations in any block; syntactic fragment `src7Top`) -/
 theorem C01_nested_functions_divergence (cc : CharClass) (src : Text) (ast : Block) (r : RBlock) (bc : Bytecode) (hp : parse cc src = .ok ast)
     (hs : Sim7.src7Top ast = true) (hc : compileProgram ast = .ok (r, bc)) (hdiv : ∀ F, specText cc F src = .budget) (b : Nat) :
-    evalText cc b src = .budget ∨ (∃ n out, ∀ k, evalText cc (n + k) src = .error .index out) :=
+    evalText cc b src = .budget ∨ TextHitsLimit cc src :=
   Sim7.eval_text7_div_checked cc src ast r bc hp hs hc hdiv b
 
 theorem C01_nested_functions_machine_answer_is_definitional (cc : CharClass) (src : Text) (ast : Block) (r : RBlock) (bc : Bytecode)
     (hp : parse cc src = .ok ast) (hs : Sim7.src7Top ast = true) (hc : compileProgram ast = .ok (r, bc)) (b : Nat)
-    (hne : evalText cc b src ≠ .budget) (hnl : ¬ ∃ n out, ∀ k, evalText cc (n + k) src = .error .index out) :
+    (hne : evalText cc b src ≠ .budget) (hnl : ¬ TextHitsLimit cc src) :
     ∃ F, specText cc F src = evalText cc b src ∨ specText cc F src = .unspec :=
   Sim7.eval_text7_converse_checked cc src ast r bc hp hs hc b hne hnl
 
 /-- stage 8 (named literals in every expression position; validated fragment, the hypotheses of `C01_named_literals_eval_text`) -/
 theorem C01_named_literals_divergence (cc : CharClass) (src : Text) (ast : Block) (r : RBlock) (bc : Bytecode) (hp : parse cc src = .ok ast)
     (hc : compileProgram ast = .ok (r, bc)) (hin : Sim8.inFragment8 r = true) (hdiv : ∀ F, specText cc F src = .budget) (b : Nat) :
-    evalText cc b src = .budget ∨ (∃ n out, ∀ k, evalText cc (n + k) src = .error .index out) :=
+    evalText cc b src = .budget ∨ TextHitsLimit cc src :=
   Sim8.eval_text8_div cc src ast r bc hp hc hin hdiv b
 
 theorem C01_named_literals_machine_answer_is_definitional (cc : CharClass) (src : Text) (ast : Block) (r : RBlock) (bc : Bytecode)
     (hp : parse cc src = .ok ast) (hc : compileProgram ast = .ok (r, bc)) (hin : Sim8.inFragment8 r = true) (b : Nat)
-    (hne : evalText cc b src ≠ .budget) (hnl : ¬ ∃ n out, ∀ k, evalText cc (n + k) src = .error .index out) :
+    (hne : evalText cc b src ≠ .budget) (hnl : ¬ TextHitsLimit cc src) :
     ∃ F, specText cc F src = evalText cc b src ∨ specText cc F src = .unspec :=
   Sim8.eval_text8_converse cc src ast r bc hp hc hin b hne hnl
+
+/-- WHAT "THE MACHINE'S LIMIT" MEANS in the theorems of stages 4, 6, 7, 8 (`HitsLimit`, `TextHitsLimit`): after finitely many
+    good steps the run stands at a `Call argc` instruction whose callee is a function value accepting `argc` arguments and
+    whose limit check fails — the stack would grow beyond `STACK_LIMIT`, or the number of frames is at the limit
+    (`AtLimit`).  No other index error counts.  What is observable of it is what the theorems said before: from some
+    budget on `eval` answers an index error. -/
+theorem C01_limit_is_observable (cc : CharClass) (src : Text) (h : TextHitsLimit cc src) :
+    ∃ n out, ∀ k, evalText cc (n + k) src = .error .index out :=
+  h.observable
+
+/-- non-vacuity of the converse theorems with the precise limit: the text `[1][5]` is answered by an ORDINARY index error,
+    it does not hit the machine's limit (no `Call` is executed), the converse theorem applies and says that the text
+    denotes that index error -/
+theorem C01_ordinary_index_error_is_definitional :
+    evalText CharClass.ascii 10 Sim6.idxSrc = .error .index [] ∧ ¬ TextHitsLimit CharClass.ascii Sim6.idxSrc ∧
+    ∃ F, specText CharClass.ascii F Sim6.idxSrc = .error .index [] ∨ specText CharClass.ascii F Sim6.idxSrc = .unspec := by
+  refine ⟨Sim6.idx_eval, Sim6.idx_not_limit, ?_⟩
+  have d : (match compileProgram Sim6.idxAst with | .ok _ => true | .error _ => false) = true := by decide +kernel
+  cases hc : compileProgram Sim6.idxAst with
+  | error e => rw [hc] at d; cases d
+  | ok q =>
+    obtain ⟨r, bc⟩ := q
+    have hne : evalText CharClass.ascii 10 Sim6.idxSrc ≠ .budget := by rw [Sim6.idx_eval]; intro h; cases h
+    have := C01_heap_and_calls_machine_answer_is_definitional CharClass.ascii Sim6.idxSrc Sim6.idxAst r bc Sim6.idx_parse
+      Sim6.idx_src6Top hc 10 hne Sim6.idx_not_limit
+    rw [Sim6.idx_eval] at this
+    exact this
 
 /-- non-vacuity: programs that really diverge in the definitional semantics (proved for every fuel): a loop whose variable
     flips between 0 and 1, a function that calls itself forever, a returned nested literal that loops -/
